@@ -300,4 +300,14 @@ theorem inv3_run (s : St) (ls : List (Who × Lab)) (hi : Inv3 s) : Inv3 (run s l
     · rename_i s' hs; exact ih s' (inv3_step s s' x l hi hs)
     · exact ih s hi
 
+def side (s : St) : Who → Side
+  | .A => s.a
+  | .B => s.b
+
+/-- the wire towards side `x` -/
+def wireTo (s : St) : Who → List Msg
+  | .A => s.toA
+  | .B => s.toB
+
+
 end Remoc.Table.Sys
